@@ -34,14 +34,14 @@ Inductive arg :=
 | ARaw (v : value)                   (* a plain python value (receiver, python-level kwargs, evaluated argument) *)
 | ANoValue                           (* skipped slot: utils.NO_VALUE *)
 | AMapC (k : Z) (v : value)          (* MappingRuleExpression(KeywordConstant k, Constant v):  k => v *)
-| AMapE (k : Z) (id : Z) (v : value).(* MappingRuleExpression(KeywordConstant k, <expr id>) *)
+| AMapE (k : Z) (id : Z) (v : value). (* MappingRuleExpression(KeywordConstant k, <expr id>) *)
 
 Inductive hidden := HEngine | HContext.
 Inductive kind :=
 | KHidden (h : hidden)               (* yaqltypes.Engine() / Context(): injected, never bound from the call *)
 | KLambda                            (* yaqltypes.Lambda(): lazy, accepts anything *)
 | KExpr                              (* yaqltypes.YaqlExpression(): lazy, accepts expressions only *)
-| KTyped (t : tag) (nullable : bool).(* PythonType(class t, nullable) *)
+| KTyped (t : tag) (nullable : bool). (* PythonType(class t, nullable) *)
 Inductive star := SNone | SArgs | SKwargs.   (* dictionary key: the name / '*' / '**' *)
 
 Record param := {
